@@ -400,10 +400,13 @@ class SimpleHeatPumpCycle:
 
     def build_stream_collection(self, include_cond: bool = False, include_evap: bool = False, is_process_stream: bool = False) -> Tuple[StreamCollection, StreamCollection]:
 
+        # Mass flow from the condenser duty and the specific condenser duty in J/kg (the
+        # profiles are in J/kg, self._m_dot from solve() is per kJ/kg). One value for both
+        # stream sets, independent of the order in which they are requested.
+        m_dot = self._Q_cond / abs(self.Hs[1] - self.Hs[2])
+
         def _build_streams(profile: np.ndarray, is_hot: bool): 
 
-            if is_hot:
-                self._m_dot = self._Q_cond / abs(profile[0,0] - profile[-1,0])
             sc = StreamCollection()
             for i in range(len(profile) - 1):
                 h1, T1 = profile[i]
@@ -423,7 +426,7 @@ class SimpleHeatPumpCycle:
                     name=name,
                     t_supply=T1,
                     t_target=t_target,
-                    heat_flow=self._m_dot*abs(h1 - h2),  # or m_dot * (h1 - h2), depending on your model
+                    heat_flow=m_dot*abs(h1 - h2),
                     is_process_stream=False,
                     dt_cont=self._dtcont,
                 )
